@@ -1107,3 +1107,155 @@ class RlaBinaryMerge(Family):
             for x in itertools.product((0, 1, 3), repeat=nn):
                 for y in itertools.product((0, 2), repeat=nn):
                     yield {"a": list(x), "b": list(y)}
+
+
+@register
+class RlaGetItemDispatch(Family):
+    """RunLengthArray.__getitem__: which callee serves which kind of index, with which argument (callees have their own families):
+    integer -> _get_position(i); list / integer array -> _get_position(array); dense boolean mask -> _get_position(flatnonzero(mask));
+    slice -> _get_slice(slice); run-length boolean mask -> _getitem_bool(mask); slice with vector start/stop -> _ragged_slice(starts, stops);
+    Ellipsis / () / (Ellipsis,) -> the array itself; (x,) -> as x; _getitem_bool hands the True runs' [start, end) windows to _start_to_end."""
+    name = "RunLengthArray.__getitem__"
+    qualname = "npstructures.runlengtharray:RunLengthArray.__getitem__"
+    serves = ["C15"]
+    assumed = ["callee contracts: _get_position, _get_slice, _start_to_end (own families); RunLengthRaggedArray(...).ravel() (bounded stand-in)",
+               "numpy.flatnonzero contract (rank / position functions)"]
+
+    def kinds(self):
+        return ["int", "npint", "list", "intarray", "boolmask", "slice", "rlemask", "windows", "ellipsis", "()", "(ellipsis,)", "(int,)", "(slice, ellipsis)",
+                "getitem_bool"]
+
+    def extra_functions(self):
+        return ["NPSIndexable.__getitem__", "RunLengthArray._getitem_bool"]
+
+    def run(self, ctx, kind):
+        from npstructures.runlengtharray import RunLengthArray, RunLengthRaggedArray
+        import npstructures.runlengtharray as mod
+        a = sym_rla(ctx)
+        obj = a.obj
+        log = []
+        names = ["_get_position", "_get_slice", "_getitem_bool", "_ragged_slice", "_start_to_end"]
+        if kind == "getitem_bool":
+            names = ["_start_to_end"]
+        old = {nm: RunLengthArray.__dict__[nm] for nm in names}
+        for nm in names:
+            setattr(RunLengthArray, nm, (lambda nm_: lambda self_, *args: log.append((nm_,) + args) or ("RESULT", nm_))(nm))
+
+        # the ValueError raised (and caught) on the way formats the index; the text is irrelevant, and __str__ decodes through the stubbed callees
+        old_str = RunLengthArray.__dict__["__str__"]
+        RunLengthArray.__str__ = lambda self_: "<rla>"
+
+        class RaggedStub:
+            def __init__(self, *args):
+                log.append(("RunLengthRaggedArray",) + args)
+
+            def ravel(self):
+                log.append(("ravel",))
+                return "RAVELLED"
+        old_rr = mod.RunLengthRaggedArray
+        mod.RunLengthRaggedArray = RaggedStub
+        i = SInt(z3.Int("i"))
+        sl = slice(SInt(z3.Int("lo")), SInt(z3.Int("hi")), SInt(z3.Int("st")))
+        try:
+            if kind == "int":
+                out = obj[i]
+                ok = out == ("RESULT", "_get_position") and len(log) == 1 and log[0][0] == "_get_position" and log[0][1] is i
+            elif kind == "npint":
+                v = np.int64(3)
+                out = obj[v]
+                ok = out == ("RESULT", "_get_position") and len(log) == 1 and log[0][1] is v
+            elif kind == "list":
+                out = obj[[2, 0, -1]]
+                ok = out == ("RESULT", "_get_position") and len(log) == 1 and isinstance(log[0][1], np.ndarray) and log[0][1].tolist() == [2, 0, -1]
+            elif kind == "intarray":
+                k = z3.Int("k")
+                ctx.assume(k >= 0)
+                idx = SymArr.symbolic("idx", k, "int", np.int64, assume_len=False)
+                out = obj[idx]
+                ok = out == ("RESULT", "_get_position") and len(log) == 1 and log[0][1] is idx
+            elif kind == "boolmask":
+                mk = SymArr.symbolic("mask", a.n, "bool", bool, assume_len=False)
+                out = obj[mk]
+                ok = out == ("RESULT", "_get_position") and len(log) == 1
+                pos = log[0][1]
+                nz = pos.nz
+                t = z3.Int("t")
+                ctx.prove("post.as many positions as True cells", dim_term(pos.shape_[0]) == nz.cnt)
+                ctx.skolem(z3.And(0 <= t, t < nz.cnt))
+                ctx.prove("post.the positions handed on are the True cells of the mask, in order",
+                          z3.And(pos.get(t) == nz.pos(t), mk.fn(nz.pos(t)), 0 <= nz.pos(t), nz.pos(t) < a.n, z3.Implies(t + 1 < nz.cnt, nz.pos(t) < nz.pos(t + 1))),
+                          pool=[t, t + 1, nz.pos(t), nz.pos(t + 1)])
+                q = z3.Int("q")
+                ctx.skolem(z3.And(0 <= q, q < a.n, mk.fn(q)))
+                ctx.prove("post.every True cell is handed on", z3.And(0 <= nz.rk(q), nz.rk(q) < nz.cnt, pos.get(nz.rk(q)) == q), pool=[q, nz.rk(q)])
+            elif kind == "slice":
+                out = obj[sl]
+                ok = out == ("RESULT", "_get_slice") and len(log) == 1 and log[0][1] is sl
+            elif kind == "rlemask":
+                mk = sym_rla(ctx, "mask", kind="bool")
+                mk.va.dtype = np.dtype(bool)
+                out = obj[mk.obj]
+                ok = out == ("RESULT", "_getitem_bool") and len(log) == 1 and log[0][1] is mk.obj
+            elif kind == "windows":
+                k = z3.Int("k")
+                ctx.assume(k >= 0)
+                st = SymArr.symbolic("starts", k, "int", np.int64, assume_len=False)
+                en = SymArr.symbolic("stops", k, "int", np.int64, assume_len=False)
+                out = obj[st:en]
+                ok = out == ("RESULT", "_ragged_slice") and len(log) == 1 and log[0][1] is st and log[0][2] is en
+            elif kind == "ellipsis":
+                out = obj[...]
+                ok = out is obj and not log
+            elif kind == "()":
+                out = obj[()]
+                ok = out is obj and not log
+            elif kind == "(ellipsis,)":
+                out = obj[(Ellipsis,)]
+                ok = out is obj and not log
+            elif kind == "(int,)":
+                out = obj[(i,)]
+                ok = out == ("RESULT", "_get_position") and len(log) == 1 and log[0][1] is i
+            elif kind == "(slice, ellipsis)":
+                out = obj[(sl, Ellipsis)]
+                ok = out == ("RESULT", "_get_slice") and len(log) == 1 and log[0][1] is sl
+            else:
+                mk = sym_rla(ctx, "mask", kind="bool")
+                mk.va.dtype = np.dtype(bool)
+                out = obj._getitem_bool(mk.obj)
+                ok = out == "RAVELLED" and [e[0] for e in log] == ["_start_to_end", "RunLengthRaggedArray", "ravel"] and log[1][1:] == ("RESULT", "_start_to_end")
+                starts, ends = log[0][1], log[0][2]
+                nz = starts.nz
+                t = z3.Int("t")
+                ctx.prove("post.one window per True run", z3.And(dim_term(starts.shape_[0]) == nz.cnt, dim_term(ends.shape_[0]) == nz.cnt))
+                ctx.skolem(z3.And(0 <= t, t < nz.cnt))
+                u = nz.pos(t)
+                ctx.prove("post.window t is [start, end) of the t-th True run of the mask",
+                          z3.And(0 <= u, u < mk.m, mk.V(u), starts.get(t) == mk.E(u), ends.get(t) == mk.E(u + 1)), pool=[t, t + 1, u, u + 1])
+                q = z3.Int("q")
+                ctx.skolem(z3.And(0 <= q, q < mk.m, mk.V(q)))
+                ctx.prove("post.every True run gives a window", z3.And(0 <= nz.rk(q), nz.rk(q) < nz.cnt, starts.get(nz.rk(q)) == mk.E(q), ends.get(nz.rk(q)) == mk.E(q + 1)),
+                          pool=[q, q + 1, nz.rk(q)])
+        finally:
+            for nm in names:
+                setattr(RunLengthArray, nm, old[nm])
+            RunLengthArray.__str__ = old_str
+            mod.RunLengthRaggedArray = old_rr
+        ctx.prove(f"post.dispatch for {kind}", z3.BoolVal(bool(ok)))
+        ctx.prove("post.operand not modified", z3.BoolVal(a.ev.buf.writes == 0 and a.va.buf.writes == 0))
+
+    def concrete(self, case):
+        from npstructures import RunLengthArray
+        x = np.array(case["a"])
+        r = RunLengthArray.from_array(x)
+        n = len(x)
+        mask = np.array([(i * 7) % 3 != 0 for i in range(n)])
+        probes = [("[...]", r[...], x[...]), ("[()]", r[()], x), ("[mask]", r[mask], x[mask]), ("[rle mask]", r[RunLengthArray.from_array(mask)], x[mask]),
+                  ("[(slice(1,None),)]", r[(slice(1, None),)], x[1:]), ("[[0,-1]]", r[[0, -1]], x[[0, -1]])]
+        for what, got, exp in probes:
+            if np.asarray(got).tolist() != np.asarray(exp).tolist():
+                return {"msg": f"rla{what} with rla = {case['a']}: {np.asarray(got).tolist()}, numpy {np.asarray(exp).tolist()}", "sig": "wrong:rla-getitem-dispatch"}
+
+    def concretise(self, kind, model, ghost):
+        return {"a": [1, 1, 2, 3, 3]}
+
+    bounded_cases = RlaUfunc.bounded_cases
